@@ -48,6 +48,10 @@ def endings():
     E.append(('stream-cancel-in-on_subscribe', dict(kind='stream', down=2, pub='gen', cancel_after=-1, ending='flag')))
     E.append(('channel-cancel-in-on_subscribe', dict(kind='channel', down=2, up=-1, pub='gen', cancel_after=-1, ending='flag')))
     E.append(('channel-raise', dict(kind='channel', down=1, up=1, pub='raise')))
+    # the rest of the credit granted from inside on_subscribe
+    E.append(('stream-gen-credit-in-on_subscribe', dict(kind='stream', down=3, pub='gen', credit='onsub', ending='flag')))
+    E.append(('stream-manual-credit-in-on_subscribe', dict(kind='stream', down=2, pub='manual', credit='onsub')))
+    E.append(('channel-credit-in-on_subscribe', dict(kind='channel', down=2, up=1, pub='manual', credit='onsub')))
     E.append(('fnf', dict(kind='fnf')))
     E.append(('push', dict(kind='push')))
     return E
